@@ -299,7 +299,8 @@ def grpLoop (tbl : Table) : Nat → Bytes → Nat → List Seg → Except Err (N
     if bs.isEmpty then .ok (cnt, acc)
     else do
       let r ← segFromBytes tbl bs
-      grpLoop tbl k (bs.drop r.1) (cnt + r.1) (acc ++ [r.2])
+      if r.1 = 0 then .ok (cnt, acc)                 -- `if end == 0: break` (what follows is not an instance of this group)
+      else grpLoop tbl k (bs.drop r.1) (cnt + r.1) (acc ++ [r.2])
 
 /-- `GroupContainer.from_bytes` (the count field class has `FieldType` int) -/
 def containerFromBytes (tbl : Table) (bs : Bytes) : Except Err (Nat × Val) := do
